@@ -151,7 +151,7 @@ def process(part, ia32, items, syntax_att=True):
         i = owner[j]
         gnf = nf_of(gas_od[i], i)
         r = judge_candidate(b, od, j, [gnf])
-        kd = acc[i][2]
+        kd = kinds_of_nf(gnf)       # named by what the AT&T line denotes: several Intel specs transliterate to the same AT&T line
         if r is None:
             part.ok(core.h64(('a', lines[j], b)), outcome=(gnf.mnemo, kd, 'att'))
         else:
@@ -165,6 +165,10 @@ def kinds_of_line(line):
         nf, _ = R.parse_intel(line, source='spec')
     except R.Unparsable:
         return '?'
+    return kinds_of_nf(nf)
+
+
+def kinds_of_nf(nf):
     ks = []
     for o in nf.ops:
         if o[0] == 'reg':
